@@ -234,21 +234,34 @@ Qed.
 Definition C03_holds (c : case) : Prop :=
   (wf_tamper (c_repo c) (c_t c) = true -> must_report (c_repo c) (c_t c) = true -> c_check_failed c = true) /\
   (forall x, In x (c_loads c) -> snd x <> 2) /\
-  (forall x, In x (c_restores c) -> fst (snd x) = true -> snd (snd x) = true).
+  (forall x, In x (c_restores c) -> fst (snd x) = true -> snd (snd x) = true) /\
+  (forall x, In x (c_reads c) -> snd x <> 2).
 
 Lemma check_C03_iff c : check_C03 c = true <-> C03_holds c.
 Proof.
   unfold check_C03, C03_holds, clause_reported, clause_no_wrong_bytes.
   rewrite !andb_true_iff, !forallb_forall. split.
-  - intros [H1 [H2 H3]]. split; [|split].
+  - intros [H1 [[H2 H3] H4]]. split; [|split; [|split]].
     + intros Hw Hm. rewrite Hw, Hm in H1. exact H1.
     + intros x Hx. specialize (H2 x Hx). apply negb_true_iff, N.eqb_neq in H2. exact H2.
     + intros x Hx Hf. specialize (H3 x Hx). rewrite Hf in H3. exact H3.
-  - intros [H1 [H2 H3]]. split; [|split].
+    + intros x Hx. specialize (H4 x Hx). apply negb_true_iff, N.eqb_neq in H4. exact H4.
+  - intros [H1 [H2 [H3 H4]]]. split; [|split; [split|]].
     + destruct (wf_tamper (c_repo c) (c_t c) && must_report (c_repo c) (c_t c)) eqn:Hc; [|reflexivity].
       apply andb_true_iff in Hc as [Hw Hm]. apply H1; assumption.
     + intros x Hx. apply negb_true_iff, N.eqb_neq, H2, Hx.
     + intros x Hx. specialize (H3 x Hx). destruct (fst (snd x)); [rewrite H3; reflexivity | reflexivity].
+    + intros x Hx. apply negb_true_iff, N.eqb_neq, H4, Hx.
+Qed.
+
+(* a mounted-file read that the model lets succeed had a readable, unchanged copy of every blob it spans *)
+Lemma read_ok_sound R t bs :
+  read_ok R t bs = true ->
+  t_open_bad t = false /\
+  forall h, In h bs -> exists k, In k (mem_packs R t) /\ In h (pk_blobs k) /\ copy_ok (pst (t_packs t) (pk_id k)) h = true.
+Proof.
+  unfold read_ok. rewrite !andb_true_iff. intros [[H1 _] H3]. apply negb_true_iff in H1. split; [exact H1|].
+  intros h Hh. rewrite forallb_forall in H3. apply loadable_sound, H3, Hh.
 Qed.
 
 Definition model_case (R : repo) (t : tamper) : case :=
@@ -256,12 +269,12 @@ Definition model_case (R : repo) (t : tamper) : case :=
      (map (fun h => (h, if negb (t_open_bad t) && match index_errs R t with [] => true | _ => false end && loadable R t h
                         then 0 else 1))
           (flat_map (fun s => sn_trees s ++ sn_data s) (r_snaps R)))
-     (map (fun s => (sn_id s, (restore_ok R t s, restore_ok R t s))) (r_snaps R)).
+     (map (fun s => (sn_id s, (restore_ok R t s, restore_ok R t s))) (r_snaps R)) [].
 
 Lemma model_satisfies_oracle R t : check_C03 (model_case R t) = true.
 Proof.
-  apply check_C03_iff. unfold C03_holds, model_case. cbn [c_repo c_t c_check_failed c_loads c_restores].
-  split; [|split].
+  apply check_C03_iff. unfold C03_holds, model_case. cbn [c_repo c_t c_check_failed c_loads c_restores c_reads].
+  split; [|split; [|split; [|intros x []]]].
   - intros Hw Hm. destruct (check R t) eqn:Hc; [|reflexivity].
     apply (check_nil_iff R t Hw) in Hc. congruence.
   - intros x Hx. apply in_map_iff in Hx as [h [<- _]]. cbn [snd].
